@@ -47,7 +47,9 @@ Near == << [X0 EXCEPT !.restTypes = {"script"}], [X0 EXCEPT !.important = TRUE],
            [X0 EXCEPT !.permTag = {Str("t1"), Str("t2")}], [X0 EXCEPT !.permCli = {[k |-> "name", v |-> Str("tv")], [k |-> "name", v |-> Str("phone")]}],
            [X0 EXCEPT !.denyallow = {OthDom, <<Str("third"), Str("test")>>}], [X0 EXCEPT !.permDns = {"A", "AAAA"}],
            [X0 EXCEPT !.white = TRUE], [X0 EXCEPT !.pat = Str("||h.test^*")], [X0 EXCEPT !.third = "on"],
-           [X0 EXCEPT !.restTypes = {"script", "image", "media"}], [X0 EXCEPT !.restDom = {OthDom}] >>
+           [X0 EXCEPT !.restTypes = {"script", "image", "media"}], [X0 EXCEPT !.restDom = {OthDom}],
+           \* the same permitted record type plus an excluded one; the same pattern in another letter case
+           [X0 EXCEPT !.restDns = {"AAAA"}], [X0 EXCEPT !.pat = Str("||H.test^")] >>
 X1 == [M0 EXCEPT !.rewrite = RW(Str("1.2.3.4"))]
 BadfilterMain == <<X0, Bf(X0)>> \o Near \o [k \in 1..Len(Near) |-> Bf(Near[k])]
                  \o << M0, Bf(M0), Al(FALSE, FALSE, {}), Bf(Al(FALSE, FALSE, {})), Al(TRUE, FALSE, {}),
@@ -79,6 +81,7 @@ Emit == /\ (phase = "main" /\ bag = {} => PrintT(ToJson([kind |-> "POOL", main |
         /\ (phase = "src" => PrintT(ToJson([kind |-> "CASE", bag |-> bag, sb |-> sb,
                                              web |-> WebClass(BB, SS), winners |-> Idx(WebWinners(BB, SS)),
                                              cands |-> Idx(WebCandidates(BB, SS)),
+                                             docwinners |-> { j \in sb : Src[j] \in DocWinners(SS) },
                                              dns |-> DNSClass(BB), dnswinners |-> Idx(DNSWinners(BB)),
                                              dnscands |-> Idx(Candidates(BB))])))
 
